@@ -32,6 +32,7 @@ struct member_snap {
 	json_type type;
 	long long ival;
 	char s[VJ_SLEN + 1];
+	int nul_inside;
 };
 struct tree_snap {
 	int called;
@@ -73,6 +74,7 @@ static void snap_tree(struct tree_snap *t, const json_t *j, const char *buf, siz
 		if (t->m[k].present) {
 			t->m[k].type = c->j.type;
 			t->m[k].ival = c->ival;
+			t->m[k].nul_inside = c->nul_inside;
 			for (i = 0; i <= VJ_SLEN; i++)
 				t->m[k].s[i] = c->s[i];
 		}
@@ -85,9 +87,11 @@ json_t *vf_parse(unsigned call_no, const char *buf, size_t len, size_t flags)
 	unsigned shape = nondet_uint();
 
 	__CPROVER_assert(call_no < 2, "harness: at most two parser calls per verify");
-	__CPROVER_assume(shape < 3);
-	/* json_loads without JSON_DECODE_ANY yields NULL, an object or an array */
-	if (shape == 1)
+	/* json_loads without JSON_DECODE_ANY yields NULL, an object or an array; with it, any value */
+	__CPROVER_assume(shape < 3 || (shape == 3 && (flags & JSON_DECODE_ANY)));
+	if (shape == 3)
+		r = vj_havoc_scalar_or_empty();
+	else if (shape == 1)
 		r = vj_havoc_array(1, 0);
 	else if (shape == 2)
 		r = (call_no == 0) ? vj_havoc_object(hdr_alpha, 3, 0) : vj_havoc_object(pay_alpha, PAY_N, 0);
@@ -374,6 +378,9 @@ static int ref_claims_ok(void)
 		if (!pol.str_on[k])
 			continue;
 		if (!obj || !ps.m[P_ISS + k].present || ps.m[P_ISS + k].type != JSON_STRING)
+			return 0;
+		/* a value that goes on after a NUL is not byte-for-byte equal to any expected C string */
+		if (ps.m[P_ISS + k].nul_inside)
 			return 0;
 		for (i = 0; i <= VJ_SLEN; i++) {
 			char e = i <= CLEN ? pol.str[k][i] : '\0';
